@@ -337,7 +337,12 @@ func (m *Module) AssignGlobalIDs() error {
 			// printed module (global variables, aliases, ifuncs, functions); an ID
 			// assigned earlier (by the parser in textual order, or by a previous
 			// print before the module was edited) is overwritten.
-			n.SetID(id)
+			//
+			// The ID is only written when it changes, so that concurrent printers
+			// of an already numbered module do not write to memory read by others.
+			if n.ID() != id {
+				n.SetID(id)
+			}
 			id++
 		}
 		return nil
